@@ -621,22 +621,42 @@ def check_compile_expr(ctx, nts):
     else:
         ctx.undecided(rule, ap, 'Operations.append', 'cannot see what is appended to the program (%s)' % '; '.join(w_ for _, w_ in verdicts)[:120], ap.node.lineno, clause='c')
     comp = [n for n in ast.walk(al.node) if isinstance(n, ast.ListComp)]
-    if comp and canon(comp[0]) == '[(_v0, _v1,) for (_v0, _v1, _v2, _v3,) in self.ops]' or (comp and canon(comp[0].generators[0].iter) == 'self.ops' and not comp[0].generators[0].ifs
-                                                                                              and isinstance(comp[0].elt, ast.Tuple) and len(comp[0].elt.elts) == 2):
-        tgt = comp[0].generators[0].target
-        names = [x.id for x in tgt.elts] if isinstance(tgt, ast.Tuple) else []
-        elt = [canon(x) for x in comp[0].elt.elts]
-        if names[:2] == elt:
-            ctx.holds(rule, al, 'as_list -> [(arity, operation)] in order', 'the program the stack machine runs', al.node.lineno, clause='c')
+    # which namedtuple (if any) the entries are: from the append side
+    entry_fields = None
+    for n in ast.walk(ap.node):
+        if isinstance(n, ast.Call) and isinstance(n.func, ast.Name) and n.func.id in nts_all:
+            entry_fields = nts_all[n.func.id]
+
+    def slot(e, target):
+        """index of the entry component that e reads, None when it is something else"""
+        if isinstance(target, ast.Tuple) and isinstance(e, ast.Name):
+            names = [x.id if isinstance(x, ast.Name) else None for x in target.elts]
+            return names.index(e.id) if e.id in names else None
+        if isinstance(target, ast.Name):
+            if isinstance(e, ast.Subscript) and isinstance(e.value, ast.Name) and e.value.id == target.id and isinstance(e.slice, ast.Constant) and isinstance(e.slice.value, int):
+                return e.slice.value
+            if isinstance(e, ast.Attribute) and isinstance(e.value, ast.Name) and e.value.id == target.id and entry_fields and e.attr in entry_fields:
+                return entry_fields.index(e.attr)
+        return None
+
+    if comp and len(comp[0].generators) == 1:
+        g = comp[0].generators[0]
+        elt = comp[0].elt
+        if g.ifs or canon(g.iter) != 'self.ops':
+            ctx.violation(rule, al, 'Operations.as_list', 'the program is filtered or reordered', al.node.lineno, clause='c')
+        elif isinstance(elt, ast.Tuple) and len(elt.elts) == 2:
+            got = [slot(x, g.target) for x in elt.elts]
+            if got == [0, 1]:
+                ctx.holds(rule, al, 'as_list -> [(arity, operation)] in order', 'the program the stack machine runs', al.node.lineno, clause='c')
+            elif None in got:
+                ctx.undecided(rule, al, 'as_list -> %s' % canon(elt), 'cannot see which components of the entries these are', al.node.lineno, clause='c')
+            else:
+                ctx.violation(rule, al, 'as_list -> entry components %s' % got, 'the program must be (arity, operation) pairs', al.node.lineno, clause='c')
+        elif isinstance(g.target, ast.Name) and isinstance(elt, ast.Subscript) and isinstance(elt.value, ast.Name) and elt.value.id == g.target.id \
+                and isinstance(elt.slice, ast.Slice) and elt.slice.lower is None and isinstance(elt.slice.upper, ast.Constant) and elt.slice.upper.value == 2 and elt.slice.step is None:
+            ctx.holds(rule, al, 'as_list -> [entry[:2] for entry in self.ops]', 'the (arity, operation) prefix of every entry, in order', al.node.lineno, clause='c')
         else:
-            ctx.violation(rule, al, 'as_list -> %s from %s' % (elt, names), 'the program must be (arity, operation) pairs', al.node.lineno, clause='c')
-    elif comp and len(comp[0].generators) == 1 and canon(comp[0].generators[0].iter) == 'self.ops' and not comp[0].generators[0].ifs \
-            and isinstance(comp[0].generators[0].target, ast.Name) and isinstance(comp[0].elt, ast.Subscript) and isinstance(comp[0].elt.value, ast.Name) \
-            and comp[0].elt.value.id == comp[0].generators[0].target.id and isinstance(comp[0].elt.slice, ast.Slice) and comp[0].elt.slice.lower is None \
-            and isinstance(comp[0].elt.slice.upper, ast.Constant) and comp[0].elt.slice.upper.value == 2 and comp[0].elt.slice.step is None:
-        ctx.holds(rule, al, 'as_list -> [entry[:2] for entry in self.ops]', 'the (arity, operation) prefix of every entry, in order', al.node.lineno, clause='c')
-    elif comp and (comp[0].generators[0].ifs or canon(comp[0].generators[0].iter) != 'self.ops'):
-        ctx.violation(rule, al, 'Operations.as_list', 'the program is filtered or reordered', al.node.lineno, clause='c')
+            ctx.undecided(rule, al, 'Operations.as_list', 'cannot see that the program is returned entry by entry, in order', al.node.lineno, clause='c')
     else:
         ctx.undecided(rule, al, 'Operations.as_list', 'cannot see that the program is returned entry by entry, in order', al.node.lineno, clause='c')
 
